@@ -113,6 +113,8 @@ def reference_actions(rng, env, meta):
 def prefix_episode(rng, env, meta, ref, tag):
     """One earlier episode: returns (ops, kind)."""
     kinds = ["complete", "abandoned", "abandoned", "malformed"]
+    if meta["kind"] == "plain" and len(ref) >= 2:
+        kinds += ["length_override"]
     if meta["late"] is not None and env["space"]["type"] == "box":
         kinds += ["missing_price", "missing_price"]
     if meta.get("shock") is not None:
@@ -123,6 +125,12 @@ def prefix_episode(rng, env, meta, ref, tag):
     nsp = len(env["contracts"]) + (1 if env["space"].get("with_cash") else 0)
     if kind == "complete":
         for a in ref:
+            ops.append({"op": "step", "env": tag, "action": a})
+    elif kind == "length_override":
+        # a one-off reset(episode_length=m) ("stop after m states"), played to its end or abandoned
+        mlen = rng.randint(2, max(2, n))
+        ops[0]["episode_length"] = mlen
+        for a in ref[:rng.randint(0, mlen - 1)]:
             ops.append({"op": "step", "env": tag, "action": a})
     elif kind == "abandoned":
         j = rng.randint(0, max(0, n - 1))
@@ -345,6 +353,8 @@ def execute(scenario):
                     probe("prefix_ruin")
                 elif pk == "abandoned0":
                     probe("prefix_abandoned_at_step_0")
+                elif pk == "length_override":
+                    probe("prefix_reset_with_length_override")
             if len(eps) >= 3:
                 first_ref_now = eps[-2][0].get("now")
                 prev_last = [r for r in eps[-3] if r.get("kind") in ("step", "reset")][-1].get("now")
